@@ -472,7 +472,11 @@ func (l *layer) Verify(tocDigest digest.Digest) (err error) {
 		return fmt.Errorf("layer is already closed")
 	}
 	if l.r != nil {
-		return nil
+		// This cached layer was already verified or skip-verified for another user. Still
+		// compare the passed TOC digest with the one actually used and (if verification was
+		// skipped so far) turn on verification of the chunks read from now on.
+		_, err = l.verifiableReader.VerifyTOC(tocDigest)
+		return err
 	}
 	l.r, err = l.verifiableReader.VerifyTOC(tocDigest)
 	return
